@@ -26,6 +26,8 @@ max_per_fn = int(opt("--max-per-fn", "6"))
 out_path = opt("--out", "/tmp/blindspots.json")
 ops_sel = (opt("--ops") or "").split(",") if "--ops" in sys.argv else None
 seed = int(opt("--seed", "1"))
+replay = opt("--replay")          # a previous output file: re-run only its silent mutants (optionally filtered by --grep on file / fn / source line)
+grep = opt("--grep")
 
 SKIP_FILES = ("test_commons.rs", "benchmarks.rs", "blocking_queue.rs", "blocking_stack.rs", "instruments.rs", "/lib.rs", "prelude/prelude.rs")
 LOG_RE = re.compile(r"^\s*(trace|debug|info|warn|error|println|eprintln|print|panic|unreachable|todo|unimplemented|debug_assert|debug_assert_eq|assert|assert_eq|write|writeln|format)!")
@@ -90,9 +92,13 @@ def owner(spans, file, ln):
     return best[2] if best else None
 
 def main():
-    spans = fn_spans()
+    if replay:
+        prev = [m for m in json.load(open(replay)) if m["status"] == "silent"]
+        if grep: prev = [m for m in prev if re.search(grep, m["file"] + " " + m["fn"] + " " + m["old"])]
+        sel_replay = [{k: m[k] for k in ("file", "line", "fn", "op", "old", "new")} for m in prev]
+    spans = fn_spans() if not replay else {}
     muts = []
-    for path in sorted(glob.glob("/repo/src/**/*.rs", recursive=True)):
+    for path in (sorted(glob.glob("/repo/src/**/*.rs", recursive=True)) if not replay else []):
         rel = os.path.relpath(path, "/repo")
         if any(s in rel for s in SKIP_FILES): continue
         if only_files and not any(s in rel for s in only_files): continue
@@ -114,6 +120,7 @@ def main():
         rest = [m for m in l if m["op"] not in ("del-call", "ordering")]
         rnd.shuffle(rest)
         sel += keep + rest[:max(0, max_per_fn - len(keep))]
+    if replay: sel = sel_replay
     print(f"{len(muts)} candidate mutants in {len(by_fn)} functions; running {len(sel)}", flush=True)
     props = [c["property_id"] for c in json.load(open(V + "/MANIFEST.json"))["checks"]]
     t0 = time.time()
@@ -146,8 +153,10 @@ def main():
     with ThreadPoolExecutor(jobs) as ex:
         for n, r in enumerate(ex.map(one, sel)):
             results.append(r)
-            if n % 25 == 0:
+            if n % 25 == 0 and not replay:
                 print(f"[{n}/{len(sel)}] {time.time()-t0:.0f}s", flush=True)
+            if replay:
+                print(f"{r['status']:7} {r['file']}:{r['line']} {r['op']:9} {r.get('by') or ''} | {r['old'].strip()[:90]}", flush=True)
             json.dump(results, open(out_path, "w"))
     # summary per function
     per = {}
